@@ -52,6 +52,12 @@ impl SwiftField for Field61 {
     where
         Self: Sized,
     {
+        if !input.is_ascii() {
+            return Err(ParseError::InvalidFormat {
+                message: "Field 61 must contain only ASCII characters".to_string(),
+            });
+        }
+
         // Format: 6!n[4!n]2a[1!a]15d1!a3!c[16x][//16x][34x]
         if input.len() < 15 {
             return Err(ParseError::InvalidFormat {
